@@ -31,9 +31,9 @@ Proof.
   destruct a as [|x4 a]; [discriminate H|]. destruct a as [|x5 a]; [discriminate H|].
   destruct a as [|x6 a]; [discriminate H|]. destruct a as [|x7 a]; [discriminate H|].
   destruct a as [|x8 a]; [|discriminate H]. clear H.
-  Time (destruct x0 as [|p0], x1 as [|p1], x2 as [|p2], x3 as [|p3], x4 as [|p4], x5 as [|p5], x6 as [|p6], x7 as [|p7];
+  (destruct x0 as [|p0], x1 as [|p1], x2 as [|p2], x3 as [|p3], x4 as [|p4], x5 as [|p5], x6 as [|p6], x7 as [|p7];
   reflexivity).
-Time Qed.
+Qed.
 
 Theorem IPv6String_agree : forall a, length a = 8%nat ->
   IPv6String a = Verif.Spec.IPv6.ipv6_serialize a.
@@ -169,3 +169,168 @@ Proof.
     + cbn [skipn] in H. destruct x; [|cbn in H; lia]. split; [cbn; lia|reflexivity].
     + cbn [skipn] in H. destruct (IH i H) as [H1 H2]. split; [cbn; lia|exact H2].
 Qed.
+
+(* ---------- the shape of the serialization ---------- *)
+(* the text contains "::" *)
+Fixpoint has_cc (s : list N) : bool :=
+  match s with
+  | a :: s' => ((a =? 58) && match s' with b :: _ => b =? 58 | [] => false end) || has_cc s'
+  | [] => false
+  end.
+
+Lemma has_cc_iff s : has_cc s = true <-> exists pre post, s = pre ++ 58 :: 58 :: post.
+Proof.
+  split.
+  - induction s as [|a s IH]; [discriminate|]. cbn [has_cc]. intros H.
+    apply orb_prop in H. destruct H as [H|H].
+    + apply andb_prop in H. destruct H as [Ha Hb]. apply N.eqb_eq in Ha. subst a.
+      destruct s as [|b s]; [discriminate|]. apply N.eqb_eq in Hb. subst b.
+      exists [], s. reflexivity.
+    + destruct (IH H) as (pre & post & ->). exists (a :: pre), post. reflexivity.
+  - intros (pre & post & ->). induction pre as [|a pre IH]; [reflexivity|].
+    cbn [app has_cc]. rewrite IH. apply orb_true_r.
+Qed.
+
+(* pieces each followed by ':' ; pieces separated by ':' *)
+Fixpoint ser_head (l : list N) (rest : list N) : list N :=
+  match l with
+  | [] => rest
+  | x :: l' => IPv6.lower_hex x ++ 58 :: ser_head l' rest
+  end.
+Fixpoint ser_tail (l : list N) : list N :=
+  match l with
+  | [] => []
+  | x :: l' => IPv6.lower_hex x ++ match l' with [] => [] | _ => 58 :: ser_tail l' end
+  end.
+
+Definition ser_shape (a : list N) (c : option nat) : list N :=
+  match c with
+  | None => ser_tail a
+  | Some i => ser_head (firstn i a)
+                ((if Nat.eqb i 0 then [58; 58] else [58]) ++ ser_tail (skipn (i + run_at a i) a))
+  end.
+
+Lemma ser_shape8 : forall a, length a = 8%nat ->
+  IPv6.ipv6_serialize a = ser_shape a (IPv6.find_compress a 0 None 0).
+Proof.
+  intros a H.
+  destruct a as [|x0 a]; [discriminate H|]. destruct a as [|x1 a]; [discriminate H|].
+  destruct a as [|x2 a]; [discriminate H|]. destruct a as [|x3 a]; [discriminate H|].
+  destruct a as [|x4 a]; [discriminate H|]. destruct a as [|x5 a]; [discriminate H|].
+  destruct a as [|x6 a]; [discriminate H|]. destruct a as [|x7 a]; [discriminate H|].
+  destruct a as [|x8 a]; [|discriminate H]. clear H.
+  (destruct x0 as [|p0], x1 as [|p1], x2 as [|p2], x3 as [|p3], x4 as [|p4], x5 as [|p5], x6 as [|p6], x7 as [|p7];
+  reflexivity).
+Qed.
+
+Lemma hex_fuel_no58 : forall f n, Forall (fun c => (c =? 58) = false) (IPv6.hex_fuel f n).
+Proof.
+  induction f as [|f IH]; intros n; [constructor|].
+  cbn [IPv6.hex_fuel]. cbv zeta.
+  assert (Hd : n mod 16 < 16) by (apply N.mod_lt; lia).
+  assert (Hch : ((if n mod 16 <? 10 then 48 + n mod 16 else 87 + n mod 16) =? 58) = false).
+  { destruct (n mod 16 <? 10) eqn:E; lia. }
+  destruct (n <? 16).
+  - constructor; [exact Hch|constructor].
+  - apply Forall_app. split; [apply IH|]. constructor; [exact Hch|constructor].
+Qed.
+
+Lemma lower_hex_cons p : exists d ds, IPv6.lower_hex p = d :: ds /\ (d =? 58) = false.
+Proof.
+  pose proof (hex_fuel_no58 (S (N.size_nat p)) p) as F. fold (IPv6.lower_hex p) in F.
+  assert (Hn : IPv6.lower_hex p <> []).
+  { unfold IPv6.lower_hex. cbn [IPv6.hex_fuel]. cbv zeta.
+    destruct (p <? 16); [discriminate|].
+    destruct (IPv6.hex_fuel (N.size_nat p) (p / 16)); discriminate. }
+  destruct (IPv6.lower_hex p) as [|d ds]; [congruence|].
+  exists d, ds. split; [reflexivity|]. inversion F; assumption.
+Qed.
+
+Lemma has_cc_skip : forall h s, Forall (fun c => (c =? 58) = false) h -> has_cc (h ++ s) = has_cc s.
+Proof.
+  induction h as [|a h IH]; intros s F; [reflexivity|].
+  inversion F as [|? ? Ha Fh]; subst. cbn [app has_cc]. rewrite Ha. cbn [andb orb]. apply IH. exact Fh.
+Qed.
+
+Lemma has_cc_lower_hex p s : has_cc (IPv6.lower_hex p ++ s) = has_cc s.
+Proof. apply has_cc_skip. apply hex_fuel_no58. Qed.
+
+Lemma has_cc_colon s : has_cc (58 :: s) = (hd 0 s =? 58) || has_cc s.
+Proof. destruct s; reflexivity. Qed.
+
+Lemma ser_tail_no_cc : forall l, has_cc (ser_tail l) = false /\ (hd 0 (ser_tail l) =? 58) = false.
+Proof.
+  induction l as [|x l [IH1 IH2]]; [split; reflexivity|].
+  cbn [ser_tail]. split.
+  - rewrite has_cc_lower_hex. destruct l as [|y l]; [reflexivity|].
+    rewrite has_cc_colon, IH1, IH2. reflexivity.
+  - destruct (lower_hex_cons x) as (d & ds & -> & Hd). exact Hd.
+Qed.
+
+Lemma ser_head_cc : forall l t, l <> [] -> has_cc (ser_head l (58 :: t)) = true.
+Proof.
+  induction l as [|x l IH]; intros t Hl; [congruence|].
+  cbn [ser_head]. rewrite has_cc_lower_hex, has_cc_colon.
+  destruct l as [|y l]; [reflexivity|].
+  rewrite IH by discriminate. apply orb_true_r.
+Qed.
+
+Lemma nth_skipn_0 : forall (a : list N) j k, nth k (skipn j a) 1 = nth (j + k) a 1.
+Proof.
+  induction a as [|x a IH]; intros j k.
+  - rewrite skipn_nil. destruct k, j; reflexivity.
+  - destruct j; [reflexivity|]. cbn [skipn Nat.add nth]. apply IH.
+Qed.
+
+Lemma zero_run_2 l : (2 <= IPv6.zero_run l)%nat <-> nth 0 l 1 = 0 /\ nth 1 l 1 = 0.
+Proof.
+  destruct l as [|x l]; [cbn; split; [lia|intros [H _]; discriminate H]|].
+  destruct x as [|p]; [|cbn; split; [lia|intros [H _]; discriminate H]].
+  destruct l as [|y l]; [cbn; split; [lia|intros [_ H]; discriminate H]|].
+  destruct y as [|q]; [|cbn; split; [lia|intros [_ H]; discriminate H]].
+  cbn. split; [auto|lia].
+Qed.
+
+(* two adjacent zero pieces at j, j+1 *)
+Lemma run_at_2 a j : (2 <= run_at a j)%nat <-> nth j a 1 = 0 /\ nth (S j) a 1 = 0.
+Proof.
+  unfold run_at. rewrite zero_run_2, !nth_skipn_0, Nat.add_0_r, Nat.add_1_r. reflexivity.
+Qed.
+
+Theorem ipv6_serialize_canonical_shape : forall a, length a = 8%nat ->
+  (* "::" occurs iff there are two adjacent zero pieces *)
+  (has_cc (Verif.Spec.IPv6.ipv6_serialize a) = true <-> exists j, nth j a 1 = 0 /\ nth (S j) a 1 = 0)
+  /\
+  (* the run replaced is the first of the longest runs, and this is the text *)
+  match IPv6.find_compress a 0 None 0 with
+  | None => (forall j, (run_at a j < 2)%nat) /\ Verif.Spec.IPv6.ipv6_serialize a = ser_tail a
+  | Some i =>
+      first_longest a i /\
+      Verif.Spec.IPv6.ipv6_serialize a =
+        ser_head (firstn i a)
+          ((if Nat.eqb i 0 then [58; 58] else [58]) ++ ser_tail (skipn (i + run_at a i) a))
+  end.
+Proof.
+  intros a H. pose proof (ser_shape8 a H) as Hs.
+  pose proof (find_compress_first_longest a) as Hc.
+  destruct (IPv6.find_compress a 0 None 0) as [i|] eqn:E; cbn [ser_shape] in Hs.
+  - split; [|split; assumption].
+    split.
+    + intros _. exists i. apply run_at_2. destruct Hc as (Hc & _). exact Hc.
+    + intros _. rewrite Hs.
+      destruct Hc as (Hc & _). destruct (run_at_pos a i ltac:(lia)) as [Hi _].
+      destruct i as [|i]; [reflexivity|].
+      cbn [Nat.eqb app]. apply ser_head_cc.
+      destruct a; [cbn in H; lia|]. cbn [firstn]. discriminate.
+  - split; [|split; assumption].
+    rewrite Hs. rewrite (proj1 (ser_tail_no_cc a)). split; [discriminate|].
+    intros (j & Hj). apply run_at_2 in Hj. specialize (Hc j). lia.
+Qed.
+Print Assumptions ipv6_serialize_canonical_shape.
+
+Example ipv6_serialize_canonical_shape_ex :
+  IPv6.find_compress [1;0;0;2;0;0;0;3] 0 None 0 = Some 4%nat
+  /\ IPv6.find_compress [1;0;0;2;3;0;0;4] 0 None 0 = Some 1%nat
+  /\ IPv6.find_compress [1;0;2;0;3;0;4;0] 0 None 0 = None
+  /\ IPv6.ipv6_serialize [1;0;0;2;3;0;0;4] = [49;58;58;50;58;51;58;48;58;48;58;52].
+Proof. vm_compute. repeat split. Qed.
